@@ -60,7 +60,7 @@ def run(ctx):
     ctx.assumptions = ['e4ref is deliberately incomplete: only "e2fsck accepts, e4ref proves an invariant broken" is judged; the opposite disagreement is counted only',
                        'images on which e4ref raises (bytes it cannot interpret) or that use unsupported features give no verdict']
     replay_tier(ctx)
-    n = int((450 if ctx.tier == 'quick' else 12000) * ctx.scale)
+    n = int((450 if ctx.tier == 'quick' else 4000) * ctx.scale)
     hyp.run_property(ctx, strategy, body, envinit, n)
 
 def replay_tier(ctx):
